@@ -280,3 +280,73 @@ def rule_json_flag(rep, fb, floor=15):
                     r.check(inloop or guarded, key, "%s:%d" % (f["file"], c[-1]), "%s calls builder.%s() around its items regardless of include_beginendlist" % (f["qual"], c[1]), detail="inside the item loop or under the flag")
         each_block_cont(f["body"], onblock)
     return r.done()
+
+
+def rule_json_parameters(rep, fb, floor=10):
+    r = rep.rule("GUARD.json-parameters", "the caller's numbers reach RapidJSON only after they were checked: (a) every buffer allocated in io/json.cpp for a RapidJSON stream has its size passed through "
+                 "checked_buffersize (FileWriteStream with a zero-size buffer writes through buffer_[0]; FileReadStream needs 4 bytes); (b) every writer_.SetMaxDecimalPlaces(maxdecimals) sits under "
+                 "`maxdecimals >= 1` after a test of maxdecimals that throws (0 prints 1.5 as '1.', more than 324 indexes past RapidJSON's tables); (c) the SAX handler counts nesting: StartArray/StartObject "
+                 "call the depth check that throws, EndArray/EndObject undo it (the recursive descent of the parser and of every consumer of the built array is otherwise bounded only by the stack)", floor=floor)
+    funcs = [f for f in fb.lib_funcs() if f["file"].endswith("io/json.cpp")]
+    if len(funcs) < 40:
+        raise AnalysisError("io/json.cpp: only %d functions found" % len(funcs))
+    chk = [f for f in funcs if f["name"] == "checked_buffersize"]
+    if r.check(bool(chk), "checked_buffersize", "src/libawkward/io/json.cpp", "checked_buffersize is gone"):
+        f = chk[0]
+        ok = bool(find_all(f["body"], lambda k: k[0] == "if" and find_all((k[1],), lambda m: m[0] == "bin" and m[1] in ("<", "<=", ">", ">=")) and find_all(k[2], lambda m: m[0] == "throw")))
+        r.check(ok, "checked_buffersize:throws", "%s:%d" % (f["file"], f["line"]), "checked_buffersize no longer throws for a size below the minimum")
+    n = 0
+    for f in funcs:
+        where = "%s:%d" % (f["file"], f["line"])
+        allocs = list(find_all(f["body"], lambda k: k[0] == "call" and "malloc" in repr(k[1])))
+        for name, init in (f.get("inits") or ()):
+            allocs += list(find_all((init,), lambda k: k[0] == "call" and "malloc" in repr(k[1])))
+        for a in allocs:
+            n += 1
+            size = a[2][-1] if a[2] else None
+            ok = size is not None and size[0] == "call" and "checked_buffersize" in repr(size[1])
+            r.check(ok, "%s#malloc" % f["qual"], where, "%s allocates a stream buffer whose size did not pass through checked_buffersize" % f["qual"], detail="size checked")
+        for m in find_all(f["body"], lambda k: k[0] == "mcall" and k[1] == "SetMaxDecimalPlaces"):
+            n += 1
+            under = find_all(f["body"], lambda k: k[0] == "if" and cexpr(k[1]) in (("bin", "<", ("const", 0), ("var", "maxdecimals")), ("bin", "<=", ("const", 1), ("var", "maxdecimals"))) and find_all(k[2], lambda q: q is m))
+            refuse = find_all(f["body"], lambda k: k[0] == "if" and "maxdecimals" in repr(k[1]) and find_all((k[1],), lambda q: q[0] == "bin" and q[1] == "==" and ("const", 0) in (q[2], q[3]))
+                              and find_all((k[1],), lambda q: q[0] == "bin" and q[1] in (">", ">=", "<", "<=") and any(x[0] == "const" and isinstance(x[1], int) and 17 <= x[1] <= 324 for x in (q[2], q[3])))
+                              and find_all(k[2], lambda q: q[0] == "throw"))
+            r.check(bool(under) and bool(refuse), "%s#maxdecimals" % f["qual"], where, "%s hands maxdecimals to RapidJSON without refusing 0 and values beyond 324 first (guard `>= 1`: %s, refusal: %s)" % (f["qual"], bool(under), bool(refuse)),
+                    detail="1..324 only")
+    by = {f["name"]: f for f in funcs if (f.get("cls") or "") == "Handler"}
+    for ev in ("StartArray", "StartObject"):
+        f = by.get(ev)
+        if r.check(f is not None, "Handler::%s" % ev, "src/libawkward/io/json.cpp", "Handler::%s not found" % ev):
+            calls = [c[1] for c in find_all(f["body"], lambda k: k[0] == "mcall" and k[3] == ("this",))]
+            deep = [by[c] for c in calls if c in by and find_all(by[c]["body"], lambda k: k[0] == "if" and "depth_" in repr(k[1]) and find_all(k[2], lambda q: q[0] == "throw"))]
+            r.check(bool(deep), "Handler::%s:depth" % ev, "%s:%d" % (f["file"], f["line"]), "Handler::%s opens a nesting level without the depth check that throws" % ev, detail="depth checked")
+    for ev in ("EndArray", "EndObject"):
+        f = by.get(ev)
+        if r.check(f is not None, "Handler::%s" % ev, "src/libawkward/io/json.cpp", "Handler::%s not found" % ev):
+            dec = find_all(f["body"], lambda k: k[0] == "aug" and k[1] == "-" and k[2] == ("member", ("this",), "depth_"))
+            r.check(bool(dec), "Handler::%s:depth" % ev, "%s:%d" % (f["file"], f["line"]), "Handler::%s closes a nesting level without decrementing depth_: a long flat sequence of small lists is refused as too deep" % ev, detail="depth undone")
+    r.count("sites", n)
+    return r.done()
+
+
+def rule_json_int_width(rep, fb, floor=3):
+    r = rep.rule("JSON.int-width", "a RapidJSON value read with GetInt64()/GetUint64() is tested with IsInt64()/IsUint64() on the same value, not with IsInt()/IsUint(): those answer whether the number fits 32 bits, "
+                 "so a 64-bit field that the writer emits (a RegularForm size or inner_shape beyond 2^31) is refused by the reader", floor=floor)
+    from .lints3 import cs_noline
+    n = 0
+    for f in fb.lib_funcs(inst=False):
+        gets = find_all(f["body"], lambda k: k[0] == "mcall" and k[1] in ("GetInt64", "GetUint64"))
+        if not gets:
+            continue
+        tests = {}
+        for t in find_all(f["body"], lambda k: k[0] == "mcall" and k[1] in ("IsInt", "IsUint", "IsInt64", "IsUint64", "IsNumber")):
+            tests.setdefault(repr(cs_noline(t[3])), set()).add(t[1])
+        for g in gets:
+            n += 1
+            key = repr(cs_noline(g[3]))
+            ts = tests.get(key, set())
+            narrow = ts & {"IsInt", "IsUint"}
+            r.check(not narrow, "%s#%d" % (f["qual"], n), "%s:%d" % (f["file"], g[-1] if isinstance(g[-1], int) else f["line"]),
+                    "%s reads %s with %s() after testing it with %s(): numbers beyond 32 bits are refused although 64 are read" % (f["qual"], unparse(cexpr(g[3]))[:50], g[1], "/".join(sorted(narrow))), detail="tested with %s" % ("/".join(sorted(ts)) or "nothing narrower"))
+    return r.done()
